@@ -38,7 +38,7 @@ package txnprocessor
 //@   requires p != nil && p.Providers != nil && p.OpStore != nil && p.unpublishedOperationStore != nil
 //@   requires sidetreeTxn != nil && opsNonNil(txnOps)
 //@   loop 1
-//@     invariant puts == old(puts) && len(ops) <= _k
+//@     invariant puts == old(puts) && provFailed == old(provFailed) && len(ops) <= _k && opsNonNil(txnOps)
 //@     invariant forall a int :: 0 <= a && a < len(ops) ==> ops[a] != nil && stamped(ops[a], sidetreeTxn) && ops[a].UniqueSuffix in batchSuffixes
 //@     invariant forall a int, b int :: 0 <= a && a < b && b < len(ops) ==> ops[a].UniqueSuffix != ops[b].UniqueSuffix
 //@   ensures puts == old(puts) + 1
@@ -46,6 +46,7 @@ package txnprocessor
 //@   ensures forall a int, b int :: 0 <= a && a < b && b < len(lastPut) ==> lastPut[a].UniqueSuffix != lastPut[b].UniqueSuffix
 //@   ensures err != nil ==> r0 == 0
 //@   ensures err == nil ==> r0 == len(lastPut)
+//@   ensures provFailed == old(provFailed)
 //@   modifies *
 //
 //@ func (*TxnProcessor).Process
